@@ -10,9 +10,9 @@ import AvoVerif.Props.C14Tables
 #print axioms Avo.Tags.invalid_is_ignore
 #print axioms Avo.Tags.sepFree_of_table
 #print axioms Avo.Tags.acceptEvals_sound
-#print axioms Avo.Tags.tags_equiv_fails_empty_option
-#print axioms Avo.Tags.tags_roundtrip_fails_empty_option
-#print axioms Avo.Tags.tags_equiv_fails_empty_constraint
+#print axioms Avo.Tags.empty_option_invalid
+#print axioms Avo.Tags.empty_option_lost_by_roundtrip
+#print axioms Avo.Tags.empty_constraint_invalid
 #print axioms Avo.Tags.tags_equiv_fails_long_line
 #print axioms Avo.Tags.tags_equiv_fails_large_set
 #print axioms Avo.Tags.space_agree
@@ -20,3 +20,4 @@ import AvoVerif.Props.C14Tables
 #print axioms Avo.Tags.tags_equiv_installed
 #print axioms Avo.Tags.tags_roundtrip_installed
 #print axioms Avo.Tags.f8_installed
+#print axioms Avo.Tags.valid_nonempty
